@@ -23,6 +23,26 @@ def gen(rng, tier):
         yield Case("derive", [c, hx(seed), nats(pre + post), len(pre)], "pub-path")
         if i % 4 == 0:    # hardened child from a public-only object: refused
             yield Case("derive", [c, hx(seed), nats(pre + [rand_index(rng, True)]), len(pre)], "neg-hardened")
+    # directed: children whose HMAC left half IL, or whose child public key x, starts with zero bytes (fixed-width conversions)
+    import hmac, hashlib
+    for i in range(8 if tier == "quick" else 200):
+        c = ("secp256k1", "nist256p1")[i % 2]
+        seed = rand_seed(rng)
+        m = CLS[c].FromSeed(seed)
+        pub, cc = m.PublicKey().RawCompressed().ToBytes(), m.ChainCode().ToBytes()
+        start = rng.getrandbits(30)
+        found = 0
+        for idx in range(start, start + 4000):
+            il = hmac.new(cc, pub + idx.to_bytes(4, "big"), hashlib.sha512).digest()[:32]
+            zero_il = il[0] == 0
+            zero_x = (not zero_il) and i % 4 >= 2 and m.ChildKey(idx).PublicKey().RawCompressed().ToBytes()[1] == 0
+            if zero_il or zero_x:
+                yield Case("childpub", [c, hx(pub), hx(cc), 0, idx], "pub-leading-zero")
+                yield Case("derive", [c, hx(seed), nats([idx]), 0], "pub-leading-zero")
+                yield Case("derive", [c, hx(seed), nats([idx]), 1], "priv-leading-zero")
+                found += 1
+                if found == 2:
+                    break
     for i in range(12 if tier == "quick" else 300):
         c = ("ed25519", "ed25519blake2b")[i % 2]
         yield Case("derive", [c, hx(rand_seed(rng)), nats([rand_index(rng, True), rand_index(rng)]), 1], "neg-ed25519-public")
@@ -118,6 +138,38 @@ def relations(rng, tier, rpt):
         n += 1
         if a.PublicKey().ToAddress() != b.PublicKey().ToAddress() or a.PublicKey().ToExtended() != b.PublicKey().ToExtended():
             rep("BIP-44 watch-only account derives a different address", seed.hex(), b.PublicKey().ToAddress(), a.PublicKey().ToAddress())
+    # conversion after use: an object converted to public-only behaves as public-only whatever was derived from it before
+    for i in range(20 if tier == "quick" else 600):
+        name = list(schemes)[i % len(schemes)]
+        cls = schemes[name]
+        b = cls.FromSeed(bytes(rng.randrange(256) for _ in range(32)))
+        if i % 2:
+            b = b.ChildKey(rand_index(rng))
+        soft, hard = rand_index(rng, False), rand_index(rng, True)
+        want = pub_view(b.ChildKey(soft))
+        try:
+            b.ChildKey(hard)
+            b.DerivePath([soft])
+        except Exception:  # noqa
+            pass
+        b.ConvertToPublic()
+        n += 1
+        for what, f in (("ChildKey(soft)", lambda: b.ChildKey(soft)), ("DerivePath([soft])", lambda: b.DerivePath(str(soft)))):
+            try:
+                c2 = f()
+                if not c2.IsPublicOnly():
+                    rep("after ConvertToPublic, %s returns an object holding a private key (it had been derived before the conversion)" % what, name, "private", "public-only")
+                elif pub_view(c2) != want and not (name == "byronlegacy"):
+                    rep("after ConvertToPublic, %s differs from the public half of the private child" % what, name, pub_view(c2)[0].hex(), want[0].hex())
+            except Exception as ex:  # noqa
+                rep("after ConvertToPublic, %s raises" % what, name, type(ex).__name__, "the public child")
+        try:
+            b.ChildKey(hard)
+            rep("after ConvertToPublic, a hardened child derived before the conversion is still handed out", name, "ok", "Bip32KeyError")
+        except Bip32KeyError:
+            pass
+        except Exception as ex:  # noqa
+            rep("hardened derivation from a converted object raises the wrong error", name, type(ex).__name__, "Bip32KeyError")
     rpt.extra["impl_relation_checks"] = n
     rpt.extra["known_finding_instances"] = known
     return bad[:8]
